@@ -59,7 +59,7 @@ def floatArg (a : Bytes) : Option (Option (Option F64)) :=
     some (match Api.parseFloatText body with
           | none => some none            -- outside the model's fragment: treated by callers as unsupported
           | some none => none
-          | some (some x) => some (some x))
+          | some (some x) => if F64.isNaN x then none else some (some x))   -- `err == nil && math.IsNaN(v)` ⇒ error
 
 /-! ## connection and server commands -/
 
